@@ -418,7 +418,28 @@ pub fn validate_amount_decimals(amount: f64, currency: &str) -> Result<(), Parse
 /// - Decimal precision exceeds currency limit (C03)
 pub fn parse_amount_with_currency(input: &str, currency: &str) -> Result<f64, ParseError> {
     let amount = parse_amount(input)?;
-    validate_amount_decimals(amount, currency)?;
+
+    // C03: count the decimals as they are written. The float rendering used by
+    // validate_amount_decimals is not exact for large amounts (123456789,23 renders as
+    // 123456789.2300000042) and hides decimals beyond its precision
+    let max_decimals = get_currency_decimals(currency);
+    let separator_pos = match input.find(',') {
+        Some(pos) => Some(pos),
+        None => input.find('.'),
+    };
+    let decimal_places = match separator_pos {
+        Some(pos) => input.len() - pos - 1,
+        None => 0,
+    };
+    if decimal_places > max_decimals as usize {
+        return Err(ParseError::InvalidFormat {
+            message: format!(
+                "Amount has {} decimal places but currency {} allows maximum {} (Error code: C03)",
+                decimal_places, currency, max_decimals
+            ),
+        });
+    }
+
     Ok(amount)
 }
 
